@@ -74,7 +74,7 @@ CLAIMED = {
   tech="Coq proof (parametricity by construction) + cross-dialect differential run"),
  "C10": dict(
   text="Theorems: unsupported statement types raise the library's own exception or become an empty holder in silent mode, and an empty holder never changes the "
-       "assembled result (any position). Every partial Python operation is an explicit error value in the tree model, whose error kind is compared with the "
+       "assembled result (any position); on the core fragment of Lemma A the analysis never ends in an error value (c10_core_never_fails). Every partial Python operation is an explicit error value in the tree model, whose error kind is compared with the "
        "implementation's on mutated statements; the malformed stream (5000/42000 cases x 20 dialects) must only raise library exceptions.",
   ref="DESIGN.md section 6 C10", note=TB + "Totality over all strings is explored, not proved (parser oracle); four escapes repaired (fix commits), NetworkXError on chained RENAME recorded.",
   tech="Coq proof (dispatch, silent skip) + error-kind correspondence + malformed-input stream"),
@@ -90,11 +90,14 @@ CLAIMED = {
   ref="DESIGN.md section 6 C12", note=TB + "Thread non-interference exercised, not proved; sqlfluff/SQLAlchemy caches not modelled.",
   tech="Coq proof (state-machine invariant over run histories) + exhaustive failure-point histories"),
  "C13": dict(
-  text="Theorem: a provider without metadata is never consulted (analysis independent of what it would answer), refutation witnesses K-C13-1/2. On the "
+  text="Theorems: on the core fragment of Lemma A table-level lineage is the specified one, and the analysis succeeds, for an ARBITRARY metadata provider "
+       "(c13_metadata_never_changes_tables_on_core, c13_exact_tables_any_provider; any catalog, any trivia, any statement size); a provider without "
+       "metadata is never consulted (analysis independent of what it would answer); refutation witnesses K-C13-1/2. On the "
        "implementation: table lineage unchanged under every metadata assignment, unknown tables same answer, star expansion, unqualified attribution "
        "(lists/lacks/unknown), target positions; tie of the tree model with a provider view.",
-  ref="DESIGN.md section 6 C13", note=TB + "The refinement clauses are evaluated on the implementation for templated statements, not proved.",
-  tech="Coq proof (provider independence) + clause scenarios + model correspondence with metadata"),
+  ref="DESIGN.md section 6 C13", note=TB + "The column-level refinement clauses (star expansion, unqualified attribution, target positions) are evaluated on the implementation for "
+       "templated statements, not proved; the table-level clause is proved on the core fragment and refuted outside it (DROP).",
+  tech="Coq proof (Lemma A for any provider; provider independence) + clause scenarios + model correspondence with metadata"),
  "C14": dict(
   text="Theorems: on the specification, analysing with default schema S equals analysing the explicitly qualified statement without a default "
        "(c14_spec_default_is_qualification, all statements); with Lemma A the same holds for the tree model on the core fragment "
